@@ -183,29 +183,64 @@ class _IndexedComp(ast.NodeTransformer):
         self.generic_visit(node)
         v = node.value
         k = node.slice.value if isinstance(node.slice, ast.Constant) and isinstance(node.slice.value, int) and not isinstance(node.slice.value, bool) else None
-        if k is None or k < 0 or not isinstance(v, ast.ListComp) or len(v.generators) != 1:
+        if k is None or not isinstance(v, (ast.ListComp, ast.GeneratorExp)) or len(v.generators) != 1:
             return node
         g = v.generators[0]
-        if g.ifs or g.is_async or not isinstance(g.target, ast.Name) or any(isinstance(x, (ast.Call, ast.NamedExpr)) for x in ast.walk(v.elt)):
+        names_t = None
+        if isinstance(g.target, ast.Name):
+            names_t = None
+        elif isinstance(g.target, ast.Tuple) and all(isinstance(x, ast.Name) for x in g.target.elts):
+            names_t = [x.id for x in g.target.elts]
+        else:
+            return node
+        if g.ifs or g.is_async or any(isinstance(x, (ast.Call, ast.NamedExpr)) for x in ast.walk(v.elt)):
             return node
         it = g.iter
         if isinstance(it, ast.Subscript) and isinstance(it.slice, ast.Slice):
             sl = it.slice
-            if sl.lower is not None or sl.step is not None or not (isinstance(sl.upper, ast.Constant) and isinstance(sl.upper.value, int) and k < sl.upper.value):
+            if k < 0 or sl.lower is not None or sl.step is not None or not (isinstance(sl.upper, ast.Constant) and isinstance(sl.upper.value, int) and k < sl.upper.value):
                 return node
             it = it.value
         import copy as _c
         item = ast.Subscript(_c.deepcopy(it), ast.Constant(k), ast.Load())
-        tname = g.target.id
+        tname = g.target.id if names_t is None else None
 
         class S(ast.NodeTransformer):
             def visit_Name(self, n):
-                return ast.copy_location(_c.deepcopy(item), n) if n.id == tname and isinstance(n.ctx, ast.Load) else n
+                if not isinstance(n.ctx, ast.Load):
+                    return n
+                if tname is not None and n.id == tname:
+                    return ast.copy_location(_c.deepcopy(item), n)
+                if names_t is not None and n.id in names_t:
+                    return ast.copy_location(ast.Subscript(_c.deepcopy(item), ast.Constant(names_t.index(n.id)), ast.Load()), n)
+                return n
         return ast.copy_location(S().visit(_c.deepcopy(v.elt)), node)
 
 
 def simplify_indexed(e: ast.AST) -> ast.AST:
     return ast.fix_missing_locations(_IndexedComp().visit(e))
+
+
+def unpacked_defs(fn: ast.AST) -> Dict[str, ast.AST]:
+    """names bound (once) by unpacking a comprehension / generator, possibly with a starred middle:
+    `a, b, *_, z = (E(v) for v in X)`  ->  a = [E..][0], b = [E..][1], z = [E..][-1]"""
+    out: Dict[str, ast.AST] = {}
+    stores: Dict[str, int] = {}
+    for x in ast.walk(fn):
+        if isinstance(x, ast.Name) and isinstance(x.ctx, (ast.Store, ast.Del)):
+            stores[x.id] = stores.get(x.id, 0) + 1
+    for st in ast.walk(fn):
+        if isinstance(st, ast.Assign) and len(st.targets) == 1 and isinstance(st.targets[0], ast.Tuple) \
+                and isinstance(st.value, (ast.ListComp, ast.GeneratorExp)):
+            elts = st.targets[0].elts
+            star = [i for i, e_ in enumerate(elts) if isinstance(e_, ast.Starred)]
+            if len(star) > 1:
+                continue
+            for i, e_ in enumerate(elts):
+                if isinstance(e_, ast.Name) and stores.get(e_.id) == 1:
+                    k = i if (not star or i < star[0]) else i - len(elts)
+                    out[e_.id] = ast.Subscript(st.value, ast.Constant(k), ast.Load())
+    return out
 
 
 def expand_single_defs(fn: ast.AST, e: ast.AST, depth: int = 4, skip=(), aliases_only: bool = False) -> ast.AST:
